@@ -167,7 +167,9 @@ def c12_scripts(seed, tier):
     lp = [("produce", dict(t="t1", p=0)), ("fetch", dict(t="t1", p=0)), ("listoffsets1", dict(t="t1", p=0)), ("listoffsets", {}), ("metadata", {})]
     gp = [("offsetcommit", {}), ("offsetfetch", {}), ("joingroup", {}), ("initproducerid", {}), ("endtxn", {})]
     # broker 3 leads t2/0 and is the transaction coordinator in the first layout
-    ap = [("produce", dict(t="t2", p=0)), ("fetch", dict(t="t2", p=0)), ("listoffsets1", dict(t="t2", p=0)), ("listoffsets", {}), ("initproducerid", {}), ("metadata", {})]
+    ap = [("produce", dict(t="t2", p=0)), ("fetch", dict(t="t2", p=0)), ("listoffsets1", dict(t="t2", p=0)), ("initproducerid", {}), ("metadata", {})]
+    if tier == "thorough":
+        ap.append(("listoffsets", {}))
     fl = [
         ([{"kind": "leader", "t": "t1", "p": 0, "to": 3}], lp, None, (1, 2, 3)),
         ([{"kind": "leader", "t": "t1", "p": 0, "to": 2}, {"kind": "leader", "t": "t2", "p": 1, "to": 2}], lp, None, (1, 2, 3)),
@@ -507,7 +509,7 @@ def write_mc_cfg(d, name, reqs, menu, conns, moves, cancels, cuts, refresh, expi
 # name -> (reqs, menu, conns, moves, cancels, cuts, refresh, expire, closeidle, vtab, kinds of cluster changes)
 ALLK = "leader add addr remove topic coord txn ctrlr"
 MC_QUICK = {
-    "addr": ("MC_Reqs2", "MC_MenuQ2", 4, 1, 0, 0, 1, 0, 0, "MC_VTabA", "addr"),
+    "addr": ("MC_Reqs2", "MC_MenuQ2", 3, 1, 0, 0, 1, 0, 0, "MC_VTabA", "addr"),
     "one": ("MC_Reqs1", "MC_Menu1", 3, 1, 0, 0, 1, 0, 0, "MC_VTabA", ALLK),
     "route": ("MC_Reqs2", "MC_MenuQ1", 3, 1, 0, 0, 1, 0, 0, "MC_VTabA", "leader"),
     "fault": ("MC_Reqs2", "MC_MenuQ2", 4, 0, 1, 1, 0, 1, 0, "MC_VTabB", ALLK),
